@@ -41,8 +41,9 @@ STRUCT_SPECS = {
     'S_deep': (False, [('h', 'unsigned short', ()), ('n', 'S_nest', ()), ('t', 'signed char', ())]),
     'S_cz': (False, [('z', 'double complex', ()), ('f', 'float', ())]),
     'S_one': (False, [('q', 'unsigned long long', ())]),
+    'S_rep': (False, [('p', 'S_id', ()), ('q', 'S_id', ()), ('r', 'S_id', ())]),
 }
-STRUCT_ORDER = ['S_id', 'P_id', 'S_cs', 'P_cs', 'S_mix', 'P_mix', 'S_ff', 'S_arr', 'S_nest', 'S_deep', 'S_cz', 'S_one']
+STRUCT_ORDER = ['S_id', 'P_id', 'S_cs', 'P_cs', 'S_mix', 'P_mix', 'S_ff', 'S_arr', 'S_nest', 'S_deep', 'S_cz', 'S_one', 'S_rep']
 CT = {}
 
 
@@ -599,6 +600,9 @@ def CTA(name, n, seed=0):
 
 def malformation(fmt):
     """structural reason why a format string is malformed: 'unbalanced-braces', 'unterminated-field-name', or None"""
+    import re
+    if re.search(r'(?<![0-9])0+T\{', re.sub(r':[^:]*:', '', fmt)):
+        return 'zero-repeat-struct'
     depth = 0
     i = 0
     n = len(fmt)
